@@ -315,3 +315,19 @@ MUTANTS += [
                     _add_to_cache(_valid_against_schema_cache,t,True)
                     raise"""),
 ]
+
+SP = 'athlib/sportshall_score.py'
+MUTANTS += [
+ # ---- C16 -----------------------------------------------------------------------
+ dict(id='c16-sportshall-publish-early', props=['C16'], edits=[
+      (SP, "    if not _DB:\n        _DB = load_data()", "    if _DB is None:\n        _DB = {}\n        load_data(_DB)"),
+      (SP, "def load_data() -> Dict:", "def load_data(db=None) -> Dict:"),
+      (SP, "    db = {}\n    for (code, info) in data_by_event_code.items():", "    db = {} if db is None else db\n    for (code, info) in data_by_event_code.items():")]),
+ dict(id='c16-performance-global-scratch', props=['C16'], edits=[
+      (A, "    if score < 0:\n        score = 0\n\n    key = scoring_key(gender, event_code)", "    if score < 0:\n        score = 0\n\n    global _last_key\n    _last_key = scoring_key(gender, event_code)\n    key = scoring_key(gender, event_code)"),
+      (A, "    coeffs = _scoring_objects[key]\n\n    if PAT_JUMPS.match(event_code):\n        perf = int(", "    coeffs = _scoring_objects[_last_key]\n\n    if PAT_JUMPS.match(event_code):\n        perf = int(")]),
+ dict(id='c16-unfix-publish', props=['C16'], file=A, old="        objects = {}\n\n        for o in _scoring_table:\n            objects[scoring_key(o[\"gender\"], o[\"event_code\"])] = o\n\n        # publish only when complete: another thread may already be reading\n        _scoring_objects = objects",
+      new="        _scoring_objects = objects = {}\n\n        for o in _scoring_table:\n            objects[scoring_key(o[\"gender\"], o[\"event_code\"])] = o"),
+ dict(id='c16-unlock-world-best', props=['C16'], file=WG, old="    @_serialised\n    def world_best(self, gender, event):", new="    def world_best(self, gender, event):"),
+ dict(id='c16-unfix-evict', props=['C16'], file=U, old="    for k in list(c)[max(maxlen-1, 0):]:\n        c.pop(k, None)", new="    it = reversed(c)\n    while len(c) >= maxlen:\n        c.pop(next(it))"),
+]
